@@ -81,8 +81,8 @@ def project_problem(problem, matrices):
             shifts = []
             for sh in v['shifts']:
                 e = sh.get('end')
-                if sh.get('recharges'):
-                    raise Unsupported('recharge')
+                rc = sh.get('recharges')
+                recharge = {'max': I(rc['maxDistance']) if rc else -1, 'stations': [place(x) for x in rc['stations']] if rc else []}
                 breaks = []
                 for b in sh.get('breaks') or []:
                     if 'places' not in b:
@@ -98,7 +98,7 @@ def project_problem(problem, matrices):
                     'latest': T(sh['start']['latest']) if sh['start'].get('latest') else -1,
                     'hasEnd': bool(e), 'eloc': lix(e['location']) if e else 0, 'elatest': T(e['latest']) if e else -1,
                     'reloads': [{'loc': lix(r['location']), 'dur': I(r['duration']), 'tws': tws(r.get('times')), 'tag': r.get('tag') or '', 'resource': r.get('resourceId') or ''} for r in sh.get('reloads') or []],
-                    'breaks': breaks})
+                    'breaks': breaks, 'recharge': recharge})
             lim = v.get('limits') or {}
             vidx[vid] = len(vehicles) + 1
             vehicles.append({
